@@ -140,3 +140,60 @@ Fixpoint add_items (st : bloom) (items : list bytes) : outcome bloom :=
   end.
 Definition bloom_session (size k tweak : Z) (items : list bytes) : outcome bytes :=
   bind (bloom_init size k tweak) (fun st => bind (add_items st items) (fun st' => Ret (bf_bytes st'))).
+
+(* ---- histories of one BloomFilter object ------------------------------------------------------------------
+   def add_hash160(self, the_hash160): self.add_item(the_hash160)
+   def add_spendable(self, spendable):
+       item_bytes = spendable.tx_hash + struct.pack("<L", spendable.tx_out_index); self.add_item(item_bytes)
+   def filter_load_params(self): return self.filter_bytes, self.hash_function_count, self.tweak
+   The object has no other state than the four attributes: every observer is a function of the CURRENT attributes. *)
+Definition add_hash160 (st : bloom) (h : bytes) : outcome bloom := add_item st h.
+Definition add_spendable (st : bloom) (tx_hash : bytes) (tx_out_index : Z) : outcome bloom :=
+  bind (pack_L tx_out_index) (fun b => add_item st (tx_hash ++ b)).
+Definition filter_load_params (st : bloom) : bytes * Z * Z := (bf_bytes st, bf_k st, bf_tweak st).
+
+Inductive bloom_op :=
+| OpAdd (item : bytes)                         (* bf.add_item(item) *)
+| OpAddHash160 (h : bytes)                     (* bf.add_hash160(h) *)
+| OpAddSpendable (tx_hash : bytes) (idx : Z)   (* bf.add_spendable(spendable) *)
+| OpSetBit (v : Z)                             (* bf.set_bit(v) *)
+| OpCheckBit (v : Z)                           (* bf.check_bit(v)            observer *)
+| OpLoad                                       (* bf.filter_load_params()    observer *)
+| OpSetTweak (t : Z)                           (* bf.tweak = t *)
+| OpSetK (k : Z)                               (* bf.hash_function_count = k *)
+| OpPoke (i v : Z)                             (* bf.filter_bytes[i] = v *)
+| OpReplace (v : bytes).                       (* bf.filter_bytes = bytearray(v) *)
+
+Inductive bloom_obs := ObsNone | ObsBool (b : bool) | ObsLoad (v : bytes) (k tweak : Z).
+
+Definition step_op (st : bloom) (op : bloom_op) : outcome (bloom * bloom_obs) :=
+  match op with
+  | OpAdd item => bind (add_item st item) (fun st' => Ret (st', ObsNone))
+  | OpAddHash160 h => bind (add_hash160 st h) (fun st' => Ret (st', ObsNone))
+  | OpAddSpendable h i => bind (add_spendable st h i) (fun st' => Ret (st', ObsNone))
+  | OpSetBit v => bind (set_bit st v) (fun st' => Ret (st', ObsNone))
+  | OpCheckBit v => bind (check_bit st v) (fun b => Ret (st, ObsBool b))
+  | OpLoad => let '(v, k, t) := filter_load_params st in Ret (st, ObsLoad v k t)
+  | OpSetTweak t => Ret (mkBloom (bf_bytes st) (bf_bit_count st) (bf_k st) t, ObsNone)
+  | OpSetK k => Ret (mkBloom (bf_bytes st) (bf_bit_count st) k (bf_tweak st), ObsNone)
+  | OpPoke i v =>
+    (* the value is converted (ValueError) before the index is looked at (IndexError) *)
+    if (0 <=? v) && (v <? 256) then
+      bind (py_setitem (bf_bytes st) i (z2b v)) (fun fb =>
+      Ret (mkBloom fb (bf_bit_count st) (bf_k st) (bf_tweak st), ObsNone))
+    else Raise E_VALUE
+  | OpReplace v => Ret (mkBloom v (bf_bit_count st) (bf_k st) (bf_tweak st), ObsNone)
+  end.
+
+Fixpoint run_ops (st : bloom) (ops : list bloom_op) : outcome (bloom * list bloom_obs) :=
+  match ops with
+  | [] => Ret (st, [])
+  | op :: r =>
+    bind (step_op st op) (fun '(st', o) =>
+    bind (run_ops st' r) (fun '(st'', os) => Ret (st'', o :: os)))
+  end.
+
+(* BloomFilter(size, k, tweak); the operations; then (filter_bytes, observations) *)
+Definition bloom_history (size k tweak : Z) (ops : list bloom_op) : outcome (bytes * list bloom_obs) :=
+  bind (bloom_init size k tweak) (fun st =>
+  bind (run_ops st ops) (fun '(st', os) => Ret (bf_bytes st', os))).
